@@ -403,3 +403,10 @@ def x8(cx: Cx, ob: Ob) -> None:
     from ..rules import record_verbatim
 
     record_verbatim(cx, ob)
+
+
+@obligation("C10-X2", "state closure (shared with C05): a derived converter has its OWN lookup tables - none of them is a mutable class-level default shared by every converter that has not bound its own, none is rebound or written by a query; otherwise what is added to a derived converter shows up in the input it was derived from", floor=5)
+def x2(cx: Cx, ob: Ob) -> None:
+    from ..rules import state_closure
+
+    state_closure(cx, ob)
